@@ -32,6 +32,8 @@ type Case struct {
 	LateIso    bool       `json:"late_iso"`    // late children get an isolated context
 	RaceChild  bool       `json:"race_child"`  // one more goroutine creates+closes children while the others signal
 	ParentStop string     `json:"parent_stop"` // isolated kinds: "", "stop", "kill": the parent ends concurrently
+	ParentPre  int        `json:"parent_pre"`  // isolated kinds: errors appended to the parent BEFORE the isolated context is created
+	PostAppend string     `json:"post_append"` // isolated kinds: after the run append one more error to "" | "child-then-parent" | "parent-then-child"
 }
 
 var actionKinds = []string{"append", "append", "kill", "stop", "stop", "isdone", "err", "errors"}
@@ -70,6 +72,10 @@ func Gen(rt *rapid.T) Case {
 	}
 	if c.Kind == "isolated" || c.Kind == "isochild" {
 		c.ParentStop = []string{"", "", "stop", "kill"}[hx.Uniform(rt, 4, "pstop")]
+		if hx.Chance(rt, 40, "ppre") {
+			c.ParentPre = 1 + hx.Uniform(rt, 10, "npre")
+		}
+		c.PostAppend = []string{"", "child-then-parent", "parent-then-child"}[hx.Uniform(rt, 3, "post")]
 	}
 	return c
 }
@@ -140,16 +146,22 @@ func run(c Case) hx.Verdict {
 		defer runtime.GOMAXPROCS(old)
 	}
 	var (
-		target    sigTarget
-		parentCtx app.ContextScope
-		root      app.Scope // scope kinds: the outermost scope (closed last)
-		scp       app.Scope // scope kinds: the scope under test
+		target         sigTarget
+		parentCtx      app.ContextScope
+		root           app.Scope // scope kinds: the outermost scope (closed last)
+		scp            app.Scope // scope kinds: the scope under test
+		parentAppended []error
 	)
 	switch c.Kind {
 	case "plain":
 		target = contextscope.New()
 	case "isolated":
 		parentCtx = contextscope.New()
+		for i := 0; i < c.ParentPre; i++ {
+			e := fmt.Errorf("P-pre-%d", i)
+			parentAppended = append(parentAppended, e)
+			parentCtx.AppendError(e)
+		}
 		target = contextscope.NewIsolated(parentCtx)
 	case "scope":
 		root = scope.New(scope.Params{})
@@ -162,6 +174,11 @@ func run(c Case) hx.Verdict {
 	case "isochild":
 		root = scope.New(scope.Params{})
 		parentCtx = root.BaseContextScope()
+		for i := 0; i < c.ParentPre; i++ {
+			e := fmt.Errorf("P-pre-%d", i)
+			parentAppended = append(parentAppended, e)
+			parentCtx.AppendError(e)
+		}
 		scp = scope.NewChild(root, scope.ChildParams{ContextScope: contextscope.NewIsolated(root.BaseContextScope())})
 		target = scp
 	default:
@@ -291,6 +308,48 @@ func run(c Case) hx.Verdict {
 		sort.Strings(uniq)
 		return hx.Fail("panic", "a signalling call panicked: %s", strings.Join(uniq, " | "))
 	}
+	if parentCtx != nil && c.PostAppend != "" {
+		eT, eP := fmt.Errorf("T-post"), fmt.Errorf("P-post")
+		perr := ""
+		func() {
+			defer func() {
+				if rec := recover(); rec != nil {
+					perr = fmt.Sprint(rec)
+				}
+			}()
+			if c.PostAppend == "child-then-parent" {
+				target.AppendError(eT)
+				parentCtx.AppendError(eP)
+			} else {
+				parentCtx.AppendError(eP)
+				target.AppendError(eT)
+			}
+		}()
+		if perr != "" {
+			return hx.Fail("panic", "a signalling call panicked: %s", firstLine(perr))
+		}
+		appended = append(appended, eT)
+		parentAppended = append(parentAppended, eP)
+		v.Label("post-append-on-isolated-and-parent")
+	}
+	if parentCtx != nil {
+		pgot := parentCtx.Errors()
+		for _, e := range parentAppended {
+			found := false
+			for _, g := range pgot {
+				if g == e {
+					found = true
+					break
+				}
+			}
+			if !found {
+				return hx.Fail("error-lost", "error %v appended to the PARENT context is not in its Errors() any more (%d held, %d appended) after errors were appended to its isolated child", e, len(pgot), len(parentAppended))
+			}
+		}
+		if c.ParentPre > 0 {
+			v.Label("isolated-of-done-parent")
+		}
+	}
 	// every appended error is retained and reported
 	got := target.Errors()
 	for _, e := range appended {
@@ -311,7 +370,7 @@ func run(c Case) hx.Verdict {
 			ncancel++
 		}
 	}
-	parentKilled := c.ParentStop == "kill"
+	parentKilled := c.ParentStop == "kill" || c.ParentPre > 0
 	if int64(ncancel) < kills {
 		return hx.Fail("error-lost", "%d Kill call(s) but only %d cancellation error(s) in Errors()", kills, ncancel)
 	}
